@@ -122,6 +122,16 @@ def a_isReady(T):
                                'self.num_sown_batches': num('numSown'), 'self._num_sown_batches': num('numSown')}, 'bool')
 
 
+def a_cleanUpDefault(T):
+    f = find(T['cropping'], ['calc_clean_up_default_res'])
+    ifs = [n for n in f.body if isinstance(n, ast.If) and ast.unparse(n.test) == 'clean_up is None']
+    i = one(ifs, 'if clean_up is None')
+    if len(i.body) != 1 or i.orelse or not isinstance(i.body[0], ast.Assign) or ast.unparse(i.body[0].targets[0]) != 'clean_up':
+        raise NotFound('clean_up default shape')
+    e = translate(i.body[0].value, {'allow_incomplete': boo('allowIncomplete'), 'clean_up': boo('cleanUp')}, 'bool')
+    return f'(if cleanUpIsNone then {e} else cleanUp)'
+
+
 ANCHORS = [
     # name, Lean signature, extractor
     ('nbFromBs', '(n batchsize : Int) : Int', a_nbFromBs),
@@ -133,6 +143,7 @@ ANCHORS = [
     ('sowerFlush', '(counter batchsize : Int) (extraBatch : Bool) : Bool', a_sowerFlush),
     ('reaperDefaultSize', '(batchsize i remainder : Int) : Int', a_reaperDefaultSize),
     ('isReady', '(numResults numSown : Int) : Bool', a_isReady),
+    ('cleanUpDefault', '(cleanUpIsNone cleanUp allowIncomplete : Bool) : Bool', a_cleanUpDefault),
 ]
 
 FILES = {
